@@ -67,7 +67,8 @@ C08(e, p, o) ==
             ELSE o.head = e.from - 1 /\ o.tail = p.tail),
           "C08_head_tail_describe_remaining_chain")
   \cup If(e.res # "ok" /\ Valid(e, p) /\ o.head # 0 /\ o.tail # 0 /\
-          ~(o.head \in o.R /\ o.tail \in o.R /\ o.tail <= o.head), "C08_partial_failure_leaves_sane_pointers")
+          ~(o.head \in (o.R \cap o.RH \cap o.KH) /\ o.tail \in (o.R \cap o.RH \cap o.KH) /\ o.tail <= o.head),
+          "C08_partial_failure_leaves_sane_pointers")
   \cup If(retryTo # 0 /\ e.from = p.tail /\ e.to = retryTo /\ e.failAt = 0 /\ e.res # "ok", "C08_tail_retry_completes")
   \cup If(e.res = "panic", "C08_no_crash")
 
